@@ -17,6 +17,7 @@
 #include "common.h"
 
 #include <errno.h>
+#include <stdlib.h>
 #include <string.h>
 
 /**
@@ -60,13 +61,26 @@ int libwifi_parse_disassoc(struct libwifi_parsed_disassoc *disassoc, struct libw
                     sizeof(struct libwifi_disassoc_fixed_parameters));
     }
 
+    // Fixed Parameters must be present
+    if (frame->len < (frame->header_len + sizeof(struct libwifi_disassoc_fixed_parameters))) {
+        return -EINVAL;
+    }
+    tags_len = (int) (frame->len - frame->header_len - sizeof(struct libwifi_disassoc_fixed_parameters));
+
     unsigned char *body = (unsigned char *) frame->body;
 
     memcpy(&disassoc->fixed_parameters, body, sizeof(struct libwifi_disassoc_fixed_parameters));
     body += sizeof(struct libwifi_disassoc_fixed_parameters);
 
-    memcpy(&disassoc->tags, body, tags_len);
-    body += tags_len;
+    // The tagged parameters are copied into memory owned by the parsed frame
+    if (tags_len > 0) {
+        disassoc->tags.parameters = malloc(tags_len);
+        if (disassoc->tags.parameters == NULL) {
+            return -ENOMEM;
+        }
+        memcpy(disassoc->tags.parameters, body, tags_len);
+        disassoc->tags.length = tags_len;
+    }
 
     return 0;
 }
